@@ -7,13 +7,14 @@ import itertools
 import json
 import os
 import re
+import sys
 import time
 
 import compilew as cw
 import corpus
 import equiv
 import ic10load
-from common import MachineryError, Reporter, SPEC, known_findings, run_tlc, seed, workdir, write_evidence
+from common import MachineryError, REPO, Reporter, SPEC, known_findings, run_tlc, seed, workdir, write_evidence
 
 LANG_FAMS = ["branches", "loops", "functions", "pressure", "access", "lists"]
 
@@ -555,6 +556,9 @@ def modules_as_programs():
 def relative_text(code):
     """remove_labels(code, relative_numbers=True) of the real pass applied to a finished labels-kept text (None: not callable)"""
     try:
+        src = os.path.join(REPO, "src")          # the tree under check (VERIF_REPO), like the compile workers
+        if src not in sys.path:
+            sys.path.insert(0, src)
         from stationeers_pytrapic.generate_code import CompilerPassGatherCode as G
         g = G.__new__(G)
         return g.strip_code(g.remove_labels(code, relative_numbers=True))
